@@ -160,5 +160,20 @@ func VerifC11DropRaw() {
 		verifAssert(in2.Count() == c2+1, "reaches-later-aggregation")
 		verifAssert(len(r.got) == 1, "reaches-routes")
 	}
+	// the same name again (now possibly answered from the match cache): same treatment
+	c1, c2 = in1.Count(), in2.Count()
+	n0 := len(r.got)
+	line2 := append(append([]byte{}, name...), []byte(" 2 1499999996")...)
+	t.Dispatch(line2)
+	verifSettle()
+	if consumed {
+		verifAssert(in1.Count() == c1+1, "second-occurrence-consumed")
+		verifAssert(in2.Count() == c2, "second-occurrence-withheld-from-later-aggregation")
+		verifAssert(len(r.got) == n0, "second-occurrence-withheld-from-routes")
+	} else {
+		verifAssert(in1.Count() == c1, "second-occurrence-not-consumed")
+		verifAssert(in2.Count() == c2+1, "second-occurrence-reaches-later-aggregation")
+		verifAssert(len(r.got) == n0+1, "second-occurrence-reaches-routes")
+	}
 	verifCover("end")
 }
